@@ -117,3 +117,19 @@ package keeper
 //@ ensures [is_the_rounded_formula] amount == decmul(decquo(reporterPower * reportsCount * 1000000000000000000, totalPower * 1000000000000000000), reward * 1000000000000000000)
 //@ ensures [whole_reward_for_sole_reporter] reporterPower == totalPower && reportsCount == 1 ==> amount == reward * 1000000000000000000
 //@ ensures [nothing_for_no_power] reporterPower == 0 ==> amount == 0
+
+// argsum(F, p) is the sum of the values passed for parameter p over the calls of F made so far.
+
+//@ func (k Keeper).AllocateTip(ctx, addr, queryId, amount, height) (err)
+//@ requires [stake_record_well_formed] has(reporter.Report, pair(queryId, pair(addr, height))) ==> reporter.Report[pair(queryId, pair(addr, height))].Total > 0 && forall j in [0, len(reporter.Report[pair(queryId, pair(addr, height))].TokenOrigins)) :: reporter.Report[pair(queryId, pair(addr, height))].TokenOrigins[j] != nil
+//@ modifies reporter.SelectorTips
+
+//@ func (k Keeper).AllocateRewards(ctx, reports, reward, fromPool) (err)
+//@ requires [reward_non_negative] reward >= 0
+//@ requires [reports_present] forall j in [0, len(reports)) :: reports[j] != nil && forall m in [0, len(reports[j].Reporters)) :: reports[j].Reporters[m] != nil
+//@ modifies reporter.SelectorTips, bank.bal
+//@ ensures [zero_reward_does_nothing] reward == 0 ==> err == nil && nothing_written()
+//@ ensures [amounts_passed_on_sum_to_the_reward_exactly] err == nil && reward != 0 && called(AllocateTip) ==> argsum(AllocateTip, amount) == reward * 1000000000000000000
+//@ ensures [pool_debited_exactly_the_reward] err == nil && module(fromPool) != module("tips_escrow_pool") ==> bank.bal[module(fromPool)] == old(bank.bal[module(fromPool)]) - reward && bank.bal[module("tips_escrow_pool")] == old(bank.bal[module("tips_escrow_pool")]) + reward
+//@ loop 3 "for i, reporter := range sortedReporters"
+//@ loop 3 invariant [paid_so_far_is_total_distributed] (i < len(sortedReporters) ==> argsum(AllocateTip, amount) == totaldist) && (i == len(sortedReporters) && i > 0 ==> argsum(AllocateTip, amount) == reward * 1000000000000000000) && (i == 0 ==> !called(AllocateTip) && totaldist == 0)
